@@ -644,6 +644,12 @@ func c09Work(c *engine.Ctx) {
 			c.Exec(anysp, in, map[string]string{"tmpl": "go"})
 			c.Count("exec", 2)
 		})
+		c.ByteSweep([]byte(seed), true, func(in []byte) {
+			c.Exec(anysp, in, map[string]string{"tmpl": ""})
+			c.Exec(anysp, in, map[string]string{"tmpl": "ejs"})
+			c.Count("exec", 2)
+			c.Count("byte-sweep", 1)
+		})
 	}
 	_ = bytes.Equal
 }
